@@ -582,6 +582,33 @@ func (m *Machine) mapFind(mp *Map, key Value) int {
 	if mp == nil {
 		return -1
 	}
+	if mp.cint == nil {
+		mp.reindex()
+	}
+	if ik, sk, kind := concreteKey(key); kind != 0 {
+		// concrete key: concrete entries by index, then only the symbolic-keyed entries
+		if kind == 1 {
+			if i, ok := mp.cint[ik]; ok {
+				return i
+			}
+		} else {
+			if i, ok := mp.cstr[sk]; ok {
+				return i
+			}
+		}
+		if mp.nsym == 0 {
+			return -1
+		}
+		for i, k := range mp.keys {
+			if _, _, kk := concreteKey(k); kk != 0 {
+				continue
+			}
+			if m.branch(valueEq(k, key)) {
+				return i
+			}
+		}
+		return -1
+	}
 	for i, k := range mp.keys {
 		eq := valueEq(k, key)
 		if m.branch(eq) {
@@ -599,6 +626,19 @@ func (m *Machine) mapInsert(mp *Map, key, val Value) {
 	}
 	mp.keys = append(mp.keys, copyVal(key))
 	mp.vals = append(mp.vals, val)
+	if mp.cint == nil {
+		mp.reindex()
+		return
+	}
+	ik, sk, kind := concreteKey(key)
+	switch kind {
+	case 1:
+		mp.cint[ik] = len(mp.keys) - 1
+	case 2:
+		mp.cstr[sk] = len(mp.keys) - 1
+	default:
+		mp.nsym++
+	}
 }
 
 func (m *Machine) mapDelete(mp *Map, key Value) {
@@ -608,6 +648,7 @@ func (m *Machine) mapDelete(mp *Map, key Value) {
 	}
 	mp.keys = append(append([]Value(nil), mp.keys[:i]...), mp.keys[i+1:]...)
 	mp.vals = append(append([]Value(nil), mp.vals[:i]...), mp.vals[i+1:]...)
+	mp.reindex()
 }
 
 func (m *Machine) lookup(fr *frame, instr *ssa.Lookup, x, key Value) Value {
@@ -714,11 +755,25 @@ func (m *Machine) iterNext(fr *frame, it Value, instr *ssa.Next) Value {
 			// entry may have been deleted meanwhile: check by identity of key position
 			still := false
 			var val Value
-			for j, kk := range it.mp.keys {
-				if valueEq(kk, k) == trueT {
+			if _, _, kind := concreteKey(k); kind != 0 && it.mp.cint != nil {
+				ik, sk, _ := concreteKey(k)
+				j, ok := -1, false
+				if kind == 1 {
+					j, ok = it.mp.cint[ik]
+				} else {
+					j, ok = it.mp.cstr[sk]
+				}
+				if ok {
 					still = true
 					val = it.mp.vals[j]
-					break
+				}
+			} else {
+				for j, kk := range it.mp.keys {
+					if valueEq(kk, k) == trueT {
+						still = true
+						val = it.mp.vals[j]
+						break
+					}
 				}
 			}
 			if !still {
@@ -728,7 +783,7 @@ func (m *Machine) iterNext(fr *frame, it Value, instr *ssa.Next) Value {
 			return Tuple{trueT, k, copyVal(val)}
 		}
 		tt := instr.Type().(*types.Tuple)
-		return Tuple{falseT, zero(tt.At(1).Type()), zero(tt.At(2).Type())}
+		return Tuple{falseT, zeroOrNil(tt.At(1).Type()), zeroOrNil(tt.At(2).Type())}
 	case *StrIter:
 		if it.i >= it.s.Len() {
 			return Tuple{falseT, K(64, 0), K(32, 0)}
@@ -743,4 +798,11 @@ func (m *Machine) iterNext(fr *frame, it Value, instr *ssa.Next) Value {
 		return Tuple{trueT, K(64, uint64(idx)), K(32, uint64(r))}
 	}
 	panic(fmt.Sprintf("next on %T", it))
+}
+
+func zeroOrNil(t types.Type) Value {
+	if b, ok := t.(*types.Basic); ok && b.Kind() == types.Invalid {
+		return nil
+	}
+	return zero(t)
 }
